@@ -134,6 +134,10 @@ class Unsigned32Type(BaseDataType):
 
             self._data = data
 
+        else:
+            raise DataTypeError("Unsigned32Type MUST have data argument "\
+                                "of 'int' or 'bytes'")
+
 
     def is_bit_set(self, bit):
         if 0 <= bit < 8:
@@ -216,6 +220,10 @@ class Unsigned64Type(BaseDataType):
                                     "of 'bytes' with 64-bit unsigned value")
 
             self._data = data
+
+        else:
+            raise DataTypeError("Unsigned64Type MUST have data argument "\
+                                "of 'int' or 'bytes'")
 
 
 class GroupedType(BaseDataType):
